@@ -188,6 +188,14 @@ def extract_model(out, obl):
     return model
 
 
+def _limit_memory():
+    """8 GB of address space per solver process (62 GB, no swap, up to 16 solver processes): a solver that needs more dies
+    and its answer counts as `unknown`"""
+    import resource
+    lim = 8 * 1024 ** 3
+    resource.setrlimit(resource.RLIMIT_AS, (lim, lim))
+
+
 def solve_one(obl, timeout_s, want_model=True, extra="", second_opinion=False):
     """Float32 obligations: cvc5 alone for 60 % of the budget, then z3-new for the rest (cvc5 wins almost always and two
     bit-blasting processes per obligation only slow each other down on a loaded machine); everything else: parallel portfolio."""
@@ -219,7 +227,7 @@ def _solve_with(obl, timeout_s, want_model=True, extra="", second_opinion=False,
         if want_model and syms:
             f.write("(get-value (%s))\n" % " ".join(syms))
         f.close()
-        p = subprocess.Popen(cmd + [f.name], stdout=subprocess.PIPE, stderr=subprocess.STDOUT, text=True)
+        p = subprocess.Popen(cmd + [f.name], stdout=subprocess.PIPE, stderr=subprocess.STDOUT, text=True, preexec_fn=_limit_memory)
         procs.append([name, p, f.name, None])
     answers, log = {}, []
     verdict, model, who = "unknown", {}, None
@@ -330,14 +338,21 @@ def decide_all(obls, tier, workers=16, log=None, models=True, on_sat=None, stop_
     confirmed = [0]
     skipped = [0]
 
-    def do_one(o):
+    def do_one(o, phase):
+        """phase 1: the cheap steps (abstracted identity, 3 s Float32 query, candidate counterexamples confirmed natively) for
+        EVERY open obligation; phase 2: the long solver run under the tier cap for what is still open. A violation that cheap
+        steps can find is therefore found before any long run starts."""
+        if phase == 2 and not o.get("_open"):
+            return
         if confirmed[0] >= stop_after:
             if o["verdict"] != "sat":
                 o["verdict"] = "skipped"
             skipped[0] += 1
             return
         r = None
-        if o["theory"] == "fp" and o.get("smt_abs"):
+        if phase == 1:
+            o["_open"] = False
+        if phase == 1 and o["theory"] == "fp" and o.get("smt_abs"):
             # the identity with the common sub-terms of both sides abstracted away: `unsat` discharges the obligation
             ab = {"smt": o["smt_abs"], "vars": [], "theory": "fp", "kind": "claim"}
             rab = solve_one(ab, 20, want_model=False)
@@ -345,7 +360,7 @@ def decide_all(obls, tier, workers=16, log=None, models=True, on_sat=None, stop_
                 o.update({"verdict": "unsat", "solver": (rab["solver"] or "") + "(common sub-terms abstracted)", "seconds": o.get("seconds", 0) + rab["seconds"], "model": {}, "solver_log": rab["log"]})
                 return
         quick_fp = None
-        if o["theory"] == "fp" and on_sat is not None:
+        if phase == 1 and o["theory"] == "fp" and on_sat is not None:
             # most Float32 identities of a correct tree are refuted in well under 3 s; only the stubborn ones get candidates
             quick_fp = solve_one(o, 3)
             if quick_fp["verdict"] in ("unsat", "sat"):
@@ -397,6 +412,10 @@ def decide_all(obls, tier, workers=16, log=None, models=True, on_sat=None, stop_
             o["solver"] = None
             o.pop("reproduced", None)
             o.pop("replay_out", None)
+        if phase == 1 and o["theory"] == "fp" and on_sat is not None:
+            # still open after the cheap steps: the long run happens in phase 2
+            o["_open"] = True
+            return
         if confirmed[0] >= 1 and o["verdict"] != "sat":
             # a violation is already confirmed (the run is a VIOLATION whatever this obligation is): no long solver run
             o["verdict"] = "skipped"
@@ -409,7 +428,11 @@ def decide_all(obls, tier, workers=16, log=None, models=True, on_sat=None, stop_
                 if r["verdict"] != "sat" or not r["model"]:
                     r = None
         if r is None:
-            r = solve_one(o, cap)
+            r = solve_one(o, cap if phase == 2 else min(cap, 20))
+            if phase == 1 and r["verdict"] not in ("sat", "unsat") and cap > 20:
+                o["_open"] = True
+                o["seconds"] = o.get("seconds", 0) + r["seconds"]
+                return
         o.update({"verdict": r["verdict"], "solver": r["solver"], "seconds": o.get("seconds", 0) + r["seconds"], "model": r["model"], "solver_log": r["log"]})
         if on_sat is not None and o["verdict"] == "sat":
             try:
@@ -419,7 +442,11 @@ def decide_all(obls, tier, workers=16, log=None, models=True, on_sat=None, stop_
                 o["replay_error"] = str(e)
 
     with ThreadPoolExecutor(max_workers=max(2, workers // 2)) as ex:
-        list(ex.map(do_one, todo))
+        list(ex.map(lambda o: do_one(o, 1), todo))
+    with ThreadPoolExecutor(max_workers=max(2, workers // 2)) as ex:
+        list(ex.map(lambda o: do_one(o, 2), todo))
+    for o in todo:
+        o.pop("_open", None)
     # thorough: second opinion on a sample of fast unsat obligations
     checked = 0
     if tier == "thorough" and confirmed[0] == 0:
